@@ -9,7 +9,7 @@ def classify(clause, case, verdict):
 
 
 def run(ctx):
-    ctx.prove(families=("crash",))
+    ctx.prove(families=("crash", "db"))
     ov = ctx.overlay({"node/pkg/db/zz_verif_c16_crash_test.go": "db/c16_crash_verif_test.go"})
     path = os.path.join(ctx.work, "crash.cases")
     rc, out = ctx.go_test("node", "./pkg/db", "^TestVerifCrash$", ov, timeout=600 if ctx.tier == "quick" else 5400)
@@ -59,3 +59,14 @@ def run(ctx):
         "the filesystem under .work is whatever the host provides; no fault is injected below the process (no torn sectors, no ENOSPC)",
         "a store that was in flight at the kill may or may not be visible afterwards; both are accepted (the statement only speaks about stores that returned success)",
     ]
+
+    # "returned intact by every later lookup": the public RPC is such a lookup. The RPC part of the C12 harness (real
+    # PublicrpcServer over a real store: miss, store, lookup again; overwrite, lookup again) - C16 reports only the clauses that say a
+    # stored VAA is not (byte-exactly) returned
+    from checks import c12
+    rule = ctx.cov.get("rule", "")
+    dist = ctx.cov.get("generator_distribution")
+    c12.run_rpc_for(ctx, c12.RPC_C16)
+    ctx.cov["rule"] = rule + " | RPC lookups: the publicrpc part of the C12 harness, clauses rpc-get-lost / rpc-get-wrong-bytes"
+    if dist is not None:
+        ctx.cov["generator_distribution"] = dist
